@@ -475,11 +475,154 @@ Proof.
     cbn [orb] in Hb. rewrite Hb. cbn [andb]. split; [reflexivity|exact Hinv].
 Qed.
 
+(* ---------------------------------------------------------------- every constructor route *)
+(* what any route of region creation returns: the region asked for, and only when it fits below 2^64 and has
+   at least one byte; otherwise InvalidGuestRegion (from GuestRegionMmap::new) or MmapRegion(_) (the mapping step) *)
+Lemma region_via_cases {A} (mk : N -> N -> A) base size file :
+  match region_from_range_opt mk base size file with
+  | Ok g => g = mk base size /\ 1 <= size /\ base + size < W64
+  | Err e => (e = EInvalidGuestRegion /\ W64 <= base + size) \/ e = EMmapRegion
+  end.
+Proof.
+  unfold region_from_range_opt.
+  assert (Hn : match mmap_region_new size with Ok sz => sz = size /\ 1 <= size | Err e => e = EMmapRegion end).
+  { unfold mmap_region_new. destruct (N.eqb_spec size 0); [reflexivity|split; [reflexivity|lia]]. }
+  assert (Hm : match (match file with Some (start, flen) => mmap_region_file start flen size
+                                 | None => mmap_region_new size end) with
+               | Ok sz => sz = size /\ 1 <= size | Err e => e = EMmapRegion end).
+  { destruct file as [[start flen]|]; [|exact Hn]. unfold mmap_region_file.
+    destruct (checked_add start size); [|reflexivity]. destruct (flen <? n); [reflexivity|exact Hn]. }
+  destruct (match file with Some (start, flen) => mmap_region_file start flen size | None => mmap_region_new size end)
+    as [sz|e]; [|right; exact Hm].
+  destruct Hm as [-> H1]. unfold region_new, checked_add.
+  destruct (N.ltb_spec (base + size) W64) as [Hfit|Hno]; [repeat split; assumption|left; split; [reflexivity|exact Hno]].
+Qed.
+
+(* ... and every route DOES create the region when the request fits and the operating system grants the
+   mapping (no file, or a file that covers the requested range) *)
+Lemma region_via_grants {A} (mk : N -> N -> A) base size file :
+  1 <= size -> base + size < W64 ->
+  match file with Some (start, flen) => start + size <= flen /\ start + size < W64 | None => True end ->
+  region_from_range_opt mk base size file = Ok (mk base size).
+Proof.
+  intros H1 H2 Hf. unfold region_from_range_opt.
+  assert (Hn : mmap_region_new size = Ok size).
+  { unfold mmap_region_new. destruct (N.eqb_spec size 0); [lia|reflexivity]. }
+  assert (Hm : (match file with Some (start, flen) => mmap_region_file start flen size
+                              | None => mmap_region_new size end) = Ok size).
+  { destruct file as [[start flen]|]; [|exact Hn]. destruct Hf as [Hf1 Hf2]. unfold mmap_region_file, checked_add.
+    destruct (N.ltb_spec (start + size) W64); [|lia]. destruct (N.ltb_spec flen (start + size)); [lia|exact Hn]. }
+  rewrite Hm. apply region_new_refuses_lemma. exact H2.
+Qed.
+
+(* the backing files handed over by the harness cover the requested range: the mapping step of a request with
+   such a file decides like the one without *)
+Lemma file_step_eq f size :
+  match file_of_tag f size with
+  | Some (start, flen) => mmap_region_file start flen size
+  | None => mmap_region_new size end = mmap_region_new size.
+Proof.
+  unfold file_of_tag.
+  destruct f as [|[p|p|]]; try reflexivity; try (destruct p; reflexivity).
+  - (* tag 2 *) destruct p as [p|p|]; try reflexivity.
+    destruct (N.leb_spec size 16777216) as [Hs|Hs]; [|reflexivity].
+    unfold mmap_region_file, checked_add. rewrite W64_val.
+    destruct (N.ltb_spec (65536 + size) 18446744073709551616); [|lia].
+    destruct (N.ltb_spec (65536 + size) (65536 + size)); [lia|reflexivity].
+  - (* tag 1 *) destruct (N.leb_spec size 16777216) as [Hs|Hs]; [|reflexivity].
+    unfold mmap_region_file, checked_add. rewrite W64_val. rewrite N.add_0_l.
+    destruct (N.ltb_spec size 18446744073709551616); [|lia].
+    destruct (N.ltb_spec size size); [lia|reflexivity].
+Qed.
+Lemma region_via_eq {A} (mk : N -> N -> A) f base size :
+  region_from_range_opt mk base size (file_of_tag f size) = region_from_range mk base size.
+Proof. unfold region_from_range_opt, region_from_range. rewrite file_step_eq. reflexivity. Qed.
+Lemma collect_files_eq {A} (mk : N -> N -> N -> A) l : forall id,
+  collect_ranges_files mk id (with_files l) = collect_ranges mk id (strip_files l).
+Proof.
+  induction l as [|[[s len] f] t IH]; intros id; [reflexivity|].
+  cbn [with_files strip_files map fst snd collect_ranges_files collect_ranges].
+  rewrite region_via_eq. fold (with_files t). fold (strip_files t). rewrite IH. reflexivity.
+Qed.
+
+Lemma step_newvia m st f base size : Inv st -> forall o st', m_step m st (ONewVia f base size) = (o, st') ->
+  ok_step st (ONewVia f base size) o = Some st' /\ Inv st'.
+Proof.
+  intros Hi o st' E. cbn [m_step] in E. rewrite region_via_eq in E.
+  change (ok_step st (ONewVia f base size) o) with (ok_step st (ONew base size) o).
+  apply (step_new m st base size Hi). cbn [m_step]. exact E.
+Qed.
+Lemma step_fromrangesf m st l : Inv st -> forall o st', m_step m st (OFromRangesF l) = (o, st') ->
+  ok_step st (OFromRangesF l) o = Some st' /\ Inv st'.
+Proof.
+  intros Hi o st' E. cbn [m_step] in E. rewrite collect_files_eq in E.
+  assert (Hlen : length l = length (strip_files l)) by (unfold strip_files; symmetry; apply map_length).
+  rewrite Hlen in E.
+  change (ok_step st (OFromRangesF l) o) with (ok_step st (OFromRanges (strip_files l)) o).
+  apply (step_fromranges m st (strip_files l) Hi). cbn [m_step]. exact E.
+Qed.
+
+(* Prop-level reading for every route: what is created is the region asked for, it has at least one byte and ends
+   below 2^64; a request whose end reaches 2^64 is refused by every route *)
+Lemma every_route_refuses_lemma (A : Type) (mk : N -> N -> A) base size file :
+  (forall g, region_from_range_opt mk base size file = Ok g -> g = mk base size /\ 1 <= size /\ base + size < W64) /\
+  (W64 <= base + size -> exists e, region_from_range_opt mk base size file = Err e) /\
+  (1 <= size -> base + size < W64 ->
+   match file with Some (start, flen) => start + size <= flen /\ start + size < W64 | None => True end ->
+   region_from_range_opt mk base size file = Ok (mk base size)).
+Proof.
+  pose proof (region_via_cases mk base size file) as Hc. split; [|split].
+  - intros g E. rewrite E in Hc. exact Hc.
+  - intros Hw. destruct (region_from_range_opt mk base size file) as [g|e]; [|exists e; reflexivity].
+    destruct Hc as (_ & _ & Hc). lia.
+  - apply region_via_grants.
+Qed.
+
+Lemma collect_files_spec {A} (rs rl : A -> N) (mk : N -> N -> N -> A)
+  (Hmk : forall id b s, rs (mk id b s) = b /\ rl (mk id b s) = s) l : forall id L,
+  collect_ranges_files mk id l = Ok L ->
+  Forall (region_ok rs rl) L /\ map (fun g => (rs g, rl g)) L = map fst l.
+Proof.
+  induction l as [|[[s len] fl] t IH]; intros id L E; cbn [collect_ranges_files] in E.
+  - inversion E; subst. split; [constructor|reflexivity].
+  - pose proof (region_via_cases (mk id) s len fl) as Hc.
+    destruct (region_from_range_opt (mk id) s len fl) as [g|e]; [|discriminate].
+    destruct Hc as (-> & H1 & H2).
+    destruct (collect_ranges_files mk (id + 1) t) as [r|e'] eqn:Er; [|discriminate].
+    inversion E; subst; clear E. destruct (IH _ _ Er) as (H3 & H4). destruct (Hmk id s len) as [Hs Hl].
+    split.
+    + constructor; [|exact H3]. unfold region_ok. rewrite Hs, Hl. lia.
+    + cbn [map fst]. rewrite Hs, Hl, H4. reflexivity.
+Qed.
+(* from_ranges / from_ranges_with_files never get as far as building a map when one range does not fit *)
+Lemma ranges_with_files_refuse_lemma (A : Type) (rs rl : A -> N) (mk : N -> N -> N -> A) :
+  (forall id b s, rs (mk id b s) = b /\ rl (mk id b s) = s) ->
+  forall id l,
+  (forall L, collect_ranges_files mk id l = Ok L ->
+     Forall (region_ok rs rl) L /\ map (fun g => (rs g, rl g)) L = map fst l) /\
+  (forall s len fl, In (s, len, fl) l -> W64 <= s + len \/ len = 0 ->
+     exists e, collect_ranges_files mk id l = Err e).
+Proof.
+  intros Hmk id l. split; [apply collect_files_spec; exact Hmk|].
+  intros s len fl Hin Hbad. destruct (collect_ranges_files mk id l) as [L|e] eqn:E; [|exists e; reflexivity].
+  exfalso. destruct (collect_files_spec rs rl mk Hmk l id L E) as [Hok Hmap].
+  assert (Hi : In (s, len) (map (fun g => (rs g, rl g)) L)).
+  { rewrite Hmap. change (s, len) with (fst (s, len, fl)). apply in_map. exact Hin. }
+  apply in_map_iff in Hi. destruct Hi as (g & Eg & Hg). rewrite Forall_forall in Hok.
+  destruct (Hok g Hg) as [H1 H2]. inversion Eg; subst. lia.
+Qed.
+(* with the backing files the harness supplies, every route decides like the spelled-out one *)
+Lemma routes_agree_lemma (A : Type) (mk : N -> N -> A) (mk3 : N -> N -> N -> A) f base size id l :
+  region_from_range_opt mk base size (file_of_tag f size) = region_from_range mk base size /\
+  collect_ranges_files mk3 id (with_files l) = collect_ranges mk3 id (strip_files l).
+Proof. split; [apply region_via_eq|apply collect_files_eq]. Qed.
+
 Lemma step_ok m st op : Inv st -> forall o st', m_step m st op = (o, st') -> ok_step st op o = Some st' /\ Inv st'.
 Proof.
   destruct op.
   - apply step_new. - apply step_fromarc. - apply step_fromranges. - apply step_insert.
   - apply step_remove. - apply step_find. - apply step_newmap.
+  - apply step_newvia. - apply step_fromrangesf.
 Qed.
 Lemma steps_ok m ops : forall st, Inv st -> ok_steps st ops (m_steps m st ops) = true.
 Proof.
